@@ -58,7 +58,7 @@ def run(run):
     ]
     run.prove()
     rng = run.rng
-    n = 250 if run.tier == "quick" else 5000
+    n = 400 if run.tier == "quick" else 5000
     cases = []
     for _ in range(n):
         cases.append({"kind": "args", "args": gen_args(rng)})
